@@ -203,8 +203,9 @@ def render(kind, K=2):
             return 'comment text changed the SQL statements'
         if kind not in ('group', 'project'):
             lines = cm.split('\n')
+            emitted = [c.strip() for c in r1[1]]
             for ln in lines:
-                if (' ' + ln) not in r1[1]:
+                if ln.strip() not in emitted:
                     return 'comment line is not emitted as a `--` line in SQL'
         # DBML: re-parse gives the same comment and content
         if kind == 'inline_ref':
